@@ -28,7 +28,7 @@ COMPONENTS = {
     'stub': ['user objective', 'PRNG seam', 'joblib', 'time.time', 'uuid1'],
 }
 PROBES_EXPECTED = ['pareto_calls', 'eps_calls', 'm1', 'm2', 'm3', 'm4', 'mixed_markers', 'identical_vectors', 'coordinate_tie',
-                   'maximised_objective', 'transitivity_triples', 'verdict_0', 'verdict_1', 'verdict_2', 'derived_pairs']
+                   'maximised_objective', 'transitivity_triples', 'verdict_0', 'verdict_1', 'verdict_2', 'derived_pairs', 'signed_zero_tie']
 
 
 def hooks(ctx, w, D):
@@ -98,7 +98,7 @@ def hooks(ctx, w, D):
         for t in range(min(12, n * n)):
             a = list(pool[D.dec('work', ('dv', key, t, 0), n)])
             b = list(pool[D.dec('work', ('dv', key, t, 1), n)])
-            k = D.dec('work', ('dv', key, t, 2), 6)
+            k = D.dec('work', ('dv', key, t, 2), 7)
             m = len(a) - 1
             j = D.dec('work', ('dv', key, t, 3), m)
             if k == 0:
@@ -111,6 +111,11 @@ def hooks(ctx, w, D):
                 b = list(a)
             elif k == 4:
                 a[j], b[j] = -a[j], -b[j]
+            elif k == 6:
+                # an exact tie at zero with different signs of zero (a maximised objective equal to 0, or -1e-9 rounded to
+                # seven decimals, gives -0.0): still a tie
+                a[j], b[j] = ((-0.0, 0.0), (0.0, -0.0))[D.dec('work', ('dv', key, t, 4), 2)]
+                ctx.probe('signed_zero_tie')
             ctx.probe('derived_pairs')
             exp = R.dominates(a, b)
             # a long-lived epsilon comparator that was first used for a problem with fewer objectives (the default comparator
